@@ -174,6 +174,18 @@ def spliceAt (old : Bytes) (off : Nat) (d : Bytes) : Bytes :=
   base.take off ++ d ++ base.drop (off + d.length)
 
 open FS in
+/-- `fs::copy`'s write side: create / truncate the destination (following a link) and fill it. -/
+def copyTo (fs : FS) (dst : Path) (b : Bytes) : FS × Ret :=
+  if !fs.isDir (parent dst) then (fs, .err .notFound)
+  else match fs.get dst with
+    | some .dir => (fs, .err .other)
+    | some (.link t) =>                                 -- open(O_TRUNC) follows the link
+      (match resolve fs resolveFuel (targetPath dst t) with
+       | some q => (fs.put q (.file b), .nat b.length)
+       | none => (fs, .err .other))
+    | _ => (fs.put dst (.file b), .nat b.length)
+
+open FS in
 /-- Healthy semantics of one call. -/
 def exec (env : Env) (fs : FS) : Call → FS × Ret
   | .mkdirP p =>
@@ -250,15 +262,7 @@ def exec (env : Env) (fs : FS) : Call → FS × Ret
     else (fs.put p (.link t), .unit)
   | .copyFile src dst =>
     match fs.readFile src with
-    | .ok b =>
-      if !fs.isDir (parent dst) then (fs, .err .notFound)
-      else match fs.get dst with
-        | some .dir => (fs, .err .other)
-        | some (.link t) =>                                 -- open(O_TRUNC) follows the link
-          (match resolve fs resolveFuel (targetPath dst t) with
-           | some q => (fs.put q (.file b), .nat b.length)
-           | none => (fs, .err .other))
-        | _ => (fs.put dst (.file b), .nat b.length)
+    | .ok b => copyTo fs dst b
     | .error e => (fs, .err e)
   | .reflink src dst =>
     match fs.readFile src with
@@ -311,7 +315,7 @@ def execTorn (env : Env) (fs : FS) (t : Nat) : Call → FS
     | .error _ => fs
   | .copyFile src dst =>
     match fs.readFile src with
-    | .ok b => (exec env (fs.put src (.file (b.take t))) (.copyFile src dst)).1.put src (.file b)
+    | .ok b => (copyTo fs dst (b.take t)).1
     | .error _ => fs
   | .removeTree p =>
     match fs.get p with
